@@ -41,4 +41,31 @@ theorem w16_of_lt {n : Nat} (h : n < 65536) : w16 n = n := Nat.mod_eq_of_lt h
 
 theorem w16_lt (n : Nat) : w16 n < 65536 := Nat.mod_lt _ (by decide)
 
+theorem drop_wordsToBytes_append (ws : List Nat) (c : Bytes) :
+    (wordsToBytes ws ++ c).drop (2 * ws.length) = c := by
+  rw [← length_wordsToBytes]
+  exact List.drop_left
+
+theorem bytesToWords_append (ws : List Nat) (h : ∀ w ∈ ws, w < 65536) (c : Bytes) :
+    bytesToWords (wordsToBytes ws ++ c) = ws ++ bytesToWords c := by
+  induction ws with
+  | nil => rfl
+  | cons w ws ih =>
+    rw [wordsToBytes_cons, List.append_assoc, bytesToWords_be16 w (h w (by simp))]
+    rw [ih (fun x hx => h x (by simp [hx]))]
+    rfl
+
+theorem drop_wordsToBytes_append' (a b : List Nat) (c : Bytes) :
+    (wordsToBytes (a ++ b) ++ c).drop (2 * a.length) = wordsToBytes b ++ c := by
+  rw [wordsToBytes_append, List.append_assoc]
+  exact drop_wordsToBytes_append a _
+
+
+theorem drop_wordsToBytes (ws : List Nat) (k : Nat) (c : Bytes) (hk : k ≤ ws.length) :
+    (wordsToBytes ws ++ c).drop (2 * k) = wordsToBytes (ws.drop k) ++ c := by
+  have hl : (ws.take k).length = k := by simp [List.length_take]; omega
+  have := drop_wordsToBytes_append' (ws.take k) (ws.drop k) c
+  rw [hl, List.take_append_drop] at this
+  exact this
+
 end SfntV.Otl
